@@ -272,6 +272,7 @@ class SourceIndex:
     def __init__(self, repo):
         self.repo = repo
         self.cache = {}
+        self.n10 = []
 
     def load(self, rel):
         if rel not in self.cache:
@@ -280,12 +281,37 @@ class SourceIndex:
                 raise ExtractError('lost-anchor', 'source file %s not found' % rel)
             with open(p, encoding='utf-8') as f:
                 text = f.read()
+            text = self._expand_derive_partialeq(rel, text)
             try:
                 items = rs.scan_items(text)
             except rs.ScanError as e:
                 raise ExtractError('scan', '%s: %s' % (rel, e))
             self.cache[rel] = (text, items)
         return self.cache[rel]
+
+    _DERIVE_STRUCT = re.compile(r'#\[derive\(([^)]*)\)\]\s*(?:#\[[^\]]*\]\s*)*pub\s+struct\s+(\w+)\s*\{([^{}]*)\}')
+
+    def _expand_derive_partialeq(self, rel, text):
+        """N10: a braced struct that derives PartialEq and has no hand-written `impl PartialEq for X` in the same file gets
+        the impl the derive stands for appended to the scanned text: field-wise `==` in declaration order (the documented
+        meaning of derive(PartialEq)). A contract that addresses `impl PartialEq for X` then sees the comparison the
+        compiler generates instead of losing its anchor when a hand-written impl is replaced by a derive."""
+        add = []
+        for m in self._DERIVE_STRUCT.finditer(text):
+            derives = [d.strip() for d in m.group(1).split(',')]
+            name = m.group(2)
+            if 'PartialEq' not in derives:
+                continue
+            if re.search(r'impl\s+PartialEq\s+for\s+%s\b' % re.escape(name), text):
+                continue
+            body = re.sub(r'//[^\n]*', '', m.group(3))
+            fields = re.findall(r'(?:pub(?:\([^)]*\))?\s+)?(\w+)\s*:', body)
+            if not fields:
+                continue
+            cmp_ = ' && '.join('self.%s == rhs.%s' % (f, f) for f in fields)
+            add.append('\nimpl PartialEq for %s {\n    fn eq(&self, rhs: &Self) -> bool {\n        %s\n    }\n}\n' % (name, cmp_))
+            self.n10.append('%s: derive(PartialEq) on %s expanded to field-wise eq over %s' % (rel, name, ', '.join(fields)))
+        return text + ''.join(add)
 
     def find_item(self, rel, kind, name):
         text, items = self.load(rel)
@@ -924,6 +950,10 @@ def _build_unit(template, repo, variant='A'):
             i += 1
             continue
         raise ExtractError('template', '%s:%d unknown directive %s' % (tf, tno, d))
+    if idx.n10:
+        b.counts['N10_derive_partialeq_expanded'] = len(idx.n10)
+        for t in idx.n10:
+            b.assumptions.append('N10 ' + t + ' (documented meaning of derive(PartialEq))')
     return b
 
 
